@@ -334,9 +334,8 @@ def run(ctx):
                     for h in t.handlers)
                 # sub-workflow resumed while another one is still paused:
                 # the task is RUNNING, nothing was completed
-                g = [norm(t) for (t, pol, _g) in cfg.guards(x)
-                     if isinstance(t, ast.expr) and pol]
-                running = any('is_running(action_ex.state)' in t for t in g)
+                running = U.guarded(
+                    cfg, x, 'states.is_running(action_ex.state)', True)
                 if in_handler or running:
                     skip_ok.append(x)
         ok = all(cfg.must_pass(s, chk + skip_ok) for s in sites)
@@ -528,10 +527,8 @@ def run(ctx):
         if isinstance(x, ast.Assign) and dotted(x.targets[0]) == \
                 'skip_is_empty' and norm(x.value) == 'True':
             sn = cfg.stmt_node(x)
-            g = [norm(t) for (t, pol, _g) in cfg.guards(sn)
-                 if isinstance(t, ast.expr) and pol]
-            r7.check(any(t in ('len(result) == 0', 'not result')
-                         for t in g),
+            r7.check(U.guarded(cfg, sn, 'len(result) == 0', True) or
+                     U.guarded(cfg, sn, 'result', False),
                      ctx.construct(fn, extra='on-success fallback'),
                      'on-success is followed for SKIPPED although on-skip '
                      'produced transitions', ctx.loc(fn, x))
